@@ -62,6 +62,8 @@ def truth_frame(case, f):
         cell["lo"] = [x - f for x in cell["lo"]]
     if case.get("vary") == "count":
         n = [case["N"], 1, case["N"] + 1][f]
+    if case.get("vary") == "tilt" and cell["tilts"] is not None:
+        cell["tilts"] = [t * [1.0, -1.0, 0.5][f] for t in cell["tilts"]]  # same edges and origin, another tilt (sign, size) in every frame
     H = hmat(cell, d)
     lo = np.array(cell["lo"], float)
     L = np.array(cell["L"], float)
@@ -133,7 +135,9 @@ def gen_vary(tier, seed):
     for d in (3, 2):
         for cell in cells(d):
             for style in ("x", "xs", "xu"):
-                for vary in ("cell", "count"):
+                for vary in ("cell", "count", "tilt"):
+                    if vary == "tilt" and (cell["tilts"] is None or not any(cell["tilts"])):
+                        continue
                     for order_kind in ("sorted", "reversed"):
                         yield {"d": d, "cell": cell, "style": style, "N": 3, "order": order_kind, "F": 3, "extras": "float", "syntax": "decimal",
                                "flags": "pp pp pp", "vary": vary}
@@ -258,7 +262,8 @@ def run_scale(case):
     def read_both(frames_text):
         with open("c01.dump", "w") as fh:
             fh.write("".join(frames_text))
-        rd = DumpReader("c01.dump", ndim=d, filetype=DumpFileType.LAMMPS)
+        # the documented default file type is the LAMMPS atomic dump: half of the cases rely on it
+        rd = DumpReader("c01.dump", ndim=d) if case["order"] == "desc" else DumpReader("c01.dump", ndim=d, filetype=DumpFileType.LAMMPS)
         rd.read_onefile()
         return rd.snapshots, read_lammps_wrapper("c01.dump", d)
 
@@ -293,7 +298,7 @@ def subs(tier, seed):
         Sub("C01.grid", gen_grid, run,
             rule="one particle at every fractional coordinate {0,1/4,1/2,3/4,1}^d (plus excursions {-1/4,5/4} on every axis combination for "
                  "wrapped style in orthogonal cells) x all cells x styles"),
-        Sub("C01.vary", gen_vary, run, rule="three frames whose cell (size and origin) or particle count changes from frame to frame"),
+        Sub("C01.vary", gen_vary, run, rule="three frames whose cell (size and origin), particle count or (triclinic cells, every sign pattern) tilt factors alone (t, -t, t/2) change from frame to frame"),
         Sub("C01.scale", gen_scale, run_scale,
             rule="SCALE slice - enumerates sizes, one fixed value pattern per size: N in {10,11,99,100,101,130,257,1000} x F in {1,10,12} (thorough: full "
                  "product + many-frame files (N,F) = (10,65),(11,130),(3,257); quick: 11 (N,F) pairs) x {2D,3D} x {orthogonal non-zero origin, triclinic} "
